@@ -786,7 +786,149 @@ func plRaceStress(seed uint64, attempts int) (res plResult) {
 	return
 }
 
+// ---------------------------------------------------------------------------------------------
+// (d) the Close-vs-admission race (Rv.C04.Life.close_race_strands_call), made deterministic with the scheduling
+//     point rueidis.VerifYieldAfterIncrWaits between a caller's incrWaits and its load of the pipe state
+// ---------------------------------------------------------------------------------------------
+
+type plParkCtl struct {
+	armed atomic.Bool
+	in    chan struct{} // closed when the caller holding wait number 1 is parked
+	gate  chan struct{} // closed to let it continue with its state load
+}
+
+var plPark atomic.Pointer[plParkCtl]
+
+// plYieldHook is installed once, before any pipe of this suite exists. It parks exactly the armed caller.
+func plYieldHook(waits uint32) {
+	if waits != 1 {
+		return
+	}
+	if ctl := plPark.Load(); ctl != nil && ctl.armed.CompareAndSwap(true, false) {
+		close(ctl.in)
+		<-ctl.gate
+	}
+}
+
+func chClosed(c chan struct{}) func() bool {
+	return func() bool {
+		select {
+		case <-c:
+			return true
+		default:
+			return false
+		}
+	}
+}
+
+// plRaceEpisode: A takes wait number 1 and is parked before its state load; (three-party variant) B queues behind
+// it; Close stores 2 and queues its PING; A continues. Before fix eac8ecc nobody started `_background`: B hung and
+// Close's PING helper leaked. Must run while no other pipe of the suite is in use (the hook is global).
+func plRaceEpisode(ep int, withB bool) (res plResult) {
+	srv := NewServer(uint64(ep) + 7000)
+	gate := &plGate{}
+	srv.ReplyDelay = func(tag string) time.Duration {
+		if strings.HasPrefix(tag, "h") {
+			<-gate.ch(tag)
+		}
+		return 0
+	}
+	defer gate.openAll()
+	vp, pk, err := plNewPipe(srv, false)
+	if err != nil {
+		res.fail("pipelife:newpipe", "reset", err.Error())
+		return
+	}
+	b := cmds.NewBuilder(cmds.NoSlot)
+	variant := "2"
+	kinds := "bg"
+	if withB {
+		variant, kinds = "3", "bg bg"
+	}
+	res.emit("reset pl=0 "+kinds, "ok")
+	mk := func(id int) *plCall {
+		return &plCall{id: id, kind: "bg", tag: fmt.Sprintf("h%d_%d", ep, id), ctx: context.Background(), cancel: func() {}}
+	}
+	calls := []*plCall{mk(0)}
+	snapshot := func() string {
+		var parts []string
+		for _, c := range calls {
+			if c.returned() {
+				parts = append(parts, fmt.Sprintf("%d:%s", c.id, c.class))
+			}
+		}
+		if len(parts) == 0 {
+			parts = []string{"-"}
+		}
+		return fmt.Sprintf("st=%d ret=%s", pk.State(), strings.Join(parts, ","))
+	}
+	hang := func(key, op, what string) {
+		res.fail(key, op, what+fmt.Sprintf(" (state=%d waits=%d background started=%v)", pk.State(), pk.Waits(), pk.Bg()))
+	}
+	ctl := &plParkCtl{in: make(chan struct{}), gate: make(chan struct{})}
+	ctl.armed.Store(true)
+	plPark.Store(ctl)
+	defer plPark.Store(nil)
+	defer func() {
+		select {
+		case <-ctl.gate:
+		default:
+			close(ctl.gate)
+		}
+	}()
+	calls[0].issue(vp, b)
+	if !waitFor(chClosed(ctl.in)) {
+		hang("pipelife:hang:race-park", "raw enter 0", "caller A never reached the scheduling point after incrWaits (is the verif hook compiled in?)")
+		return
+	}
+	res.emit("raw enter 0", snapshot())
+	if withB {
+		puts := pk.Puts()
+		calls = append(calls, mk(1))
+		calls[1].issue(vp, b)
+		if !waitFor(func() bool { return pk.Puts() != puts || calls[1].returned() }) {
+			hang("pipelife:hang:race-queue", "raw enter 1 decide 1 put 1", "caller B was not queued")
+			return
+		}
+		res.emit("raw enter 1 decide 1 put 1", snapshot())
+	}
+	puts := pk.Puts()
+	closed := make(chan struct{})
+	go func() { vp.Close(); close(closed) }()
+	if !waitFor(func() bool { return pk.State() == 2 && pk.Puts() != puts }) {
+		hang("pipelife:hang:race-close", "raw closeEnter closeCas closePing", "Close did not store state 2 and queue its PING")
+		return
+	}
+	res.emit("raw closeEnter closeCas closePing", snapshot())
+	close(ctl.gate) // A loads state == 2 now
+	op := "rawq decide 0"
+	aRet := waitFor(calls[0].returned)
+	bRet := true
+	if withB {
+		bRet = waitFor(calls[1].returned)
+	}
+	cRet := waitFor(chClosed(closed))
+	settled := aRet && bRet && cRet && waitFor(func() bool { return pk.State() == 4 && pk.Waits() == 0 })
+	res.emit(op, snapshot())
+	res.emit("end", fmt.Sprintf("state=%d waits=%d err=closing", pk.State(), pk.Waits()))
+	oop := fmt.Sprintf("!race %s %s %s %s %d %d", variant, b01(aRet), b01(bRet), b01(cRet), pk.State(), pk.Waits())
+	switch {
+	case !bRet:
+		hang("pipelife:queued-call-stranded:close-vs-admission-race", oop, "the call queued behind the rejected holder of wait number 1 never returned after Close")
+	case !aRet || !cRet:
+		hang("pipelife:hang:race", oop, fmt.Sprintf("A returned=%v Close returned=%v", aRet, cRet))
+	case !settled:
+		hang("pipelife:close-ping-helper-leaked:close-vs-admission-race", oop, "after Close returned the pipe never reached state 4 with waits 0: nobody started the background goroutine, Close's PING helper still holds a wait")
+	}
+	res.hits = append(res.hits, "pipelife:race:"+variant+"-party")
+	res.emit(oop, "ok")
+	return
+}
+
 func runPipeLife(c *Ctx) {
+	// the scheduling point is global: installed before any pipe exists; the race episodes run alone, first
+	rueidis.VerifYieldAfterIncrWaits = plYieldHook
+	race := []plResult{plRaceEpisode(0, true), plRaceEpisode(1, false)}
 	nseq, nconc := c.N, c.N/2
 	type job struct {
 		ep   int
@@ -824,6 +966,7 @@ func runPipeLife(c *Ctx) {
 		}(i, j)
 	}
 	wg.Wait()
+	results = append(race, results...)
 	if c.Tier == "thorough" {
 		results = append(results, plRaceStress(c.Rng.Uint64(), 400))
 	}
@@ -841,5 +984,5 @@ func runPipeLife(c *Ctx) {
 }
 
 func init() {
-	suites["pipelife"] = suite{rule: "the real pipe (_newPipe over the tag server) driven through (a) sequentialised random schedules of call / call with a done context / call with a deadline / server reply / cancel / connection kill / Close, every action followed by an event-driven wait for quiescence, compared line by line (state and per-call outcome classes after every action, final state/waits/latched error) with the interleaving model Rv/Model/PipeLife.lean run on the same schedule, and (b) concurrent episodes (2-5 callers x 1-3 Do/DoMulti calls with random cancellation before or during the call, held replies, and a kill / Close / server-side drop at a random point) judged by oracle lines from the statements of Rv.C04.Life: every call returned; with its own reply, a transport error, ErrClosing or its own context error; a done context at admission returns the context error and puts nothing on the wire; after the teardown the pipe is in state 4 with waits 0; non-trivial = every line", run: runPipeLife}
+	suites["pipelife"] = suite{rule: "the real pipe (_newPipe over the tag server) driven through (a) sequentialised random schedules of call / call with a done context / call with a deadline / server reply / cancel / connection kill / Close, every action followed by an event-driven wait for quiescence, compared line by line (state and per-call outcome classes after every action, final state/waits/latched error) with the interleaving model Rv/Model/PipeLife.lean run on the same schedule, and (b) concurrent episodes (2-5 callers x 1-3 Do/DoMulti calls with random cancellation before or during the call, held replies, and a kill / Close / server-side drop at a random point) judged by oracle lines from the statements of Rv.C04.Life, and (c) the Close-vs-admission race of close_race_strands_call replayed deterministically through the scheduling point VerifYieldAfterIncrWaits (A parked between incrWaits and its state load, B queued, Close stores 2 and queues its PING, A continues; also without B), compared step by step with the model and judged by a `!race` line: everybody returns, state 4, waits 0: every call returned; with its own reply, a transport error, ErrClosing or its own context error; a done context at admission returns the context error and puts nothing on the wire; after the teardown the pipe is in state 4 with waits 0; non-trivial = every line", run: runPipeLife}
 }
